@@ -50,6 +50,7 @@ def regenerate():
         tab = scan_members.scan(vlib.REPO)
         gold = json.load(open(GOLDEN))
         _state["members"] = scan_members.compare(tab, gold)
+        _state["members_benign"] = scan_members.benign(tab, gold)
         st["members"] = len(tab)
         st["member_table_equal"] = not _state["members"]
     except Exception as ex:      # noqa: BLE001
@@ -252,7 +253,8 @@ def explore(rng, tier, replay=None):
                   {"kind": "model", "difference": d, "theorem": "Teakra.Sys.reset_independent",
                    "table": "checks/golden/c17_members.json"}, False))
     ctx["violations"] = v
-    ctx["direct_property_cases"] = {"twin_cases": len(scripts), "member_table_differences": len(_state.get("members", []))}
+    ctx["direct_property_cases"] = {"twin_cases": len(scripts), "member_table_differences": len(_state.get("members", [])),
+                                    "member_table_benign_differences": _state.get("members_benign", [])[:20]}
     return ctx
 
 
